@@ -1083,6 +1083,9 @@ class Bound(object):
         df = sy.diff(f, x)
         df2 = sy.diff(df, x)
         inv = sy.solve(f - y, x)
+        if hasattr(inv, "__len__") and len(inv) == 0:
+            # sympy cannot verify the roots for a symbolic y (e.g. b + 1 <= 0)
+            inv = sy.solve(f - y, x, check=False)
         if hasattr(inv, "__len__"):
             inv = inv[-1]
         return f, df, df2, inv
